@@ -13,7 +13,10 @@
 (* spec, they must agree on the chemistry, and end in the same network.    *)
 (* `expect` is the final network TLC computed for a behaviour of           *)
 (* MC_Expansion that was replayed into the code (spec -> code direction).  *)
-(* Verdict: "ok" or run<a>:step<k>:<failing clause>.                       *)
+(* Verdict: "ok", run<a>(mode):<clause> for a difference between          *)
+(* schedules (that is property C14), or note:Expansion.tla:... when the    *)
+(* history is not a behaviour of the specification (a deviation from the   *)
+(* spec, reported but not a violation of a listed property).               *)
 (***************************************************************************)
 EXTENDS Expansion, Json, IOUtils
 
@@ -21,7 +24,14 @@ Cases == ndJsonDeserialize(IOEnv.CASES)
 
 ToState(j) == [pool |-> Range(j.pool), frontier |-> Range(j.frontier), seen |-> Range(j.seen), delta |-> Range(j.delta),
                nodes |-> j.nodes, edges |-> Range(j.edges)]
-Uncapped(cfg) == cfg.capMix >= 100000 /\ cfg.capTasks >= 100000
+(* the caps can never have cut anything: even |pool|^arity mixtures per rule stay below them *)
+RECURSIVE Pow(_, _)
+Pow(b, e) == IF e = 0 THEN 1 ELSE b * Pow(b, e - 1)
+Uncapped(cfg, st) ==
+   LET n == Cardinality(st.pool)
+   IN /\ \A r \in 1..Len(cfg.arity) : cfg.arity[r] <= 4 /\ Pow(n, cfg.arity[r]) <= cfg.capMix
+      /\ \/ Len(cfg.arity) * Pow(n, 4) <= cfg.capTasks
+         \/ (\A r \in 1..Len(cfg.arity) : cfg.arity[r] <= 2) /\ Len(cfg.arity) * n * n <= cfg.capTasks
 
 (* the clauses comparing an observed snapshot with the state the spec computes *)
 Same(tag, exp, got) ==
@@ -54,7 +64,7 @@ Walk(cfg, run, st, k) ==
    THEN (IF Len(run.steps) > 0 /\ run.steps[Len(run.steps)].ran /\ Continue(st, cfg, k)
          THEN "step" \o ToString(k) \o ":build-returned-although-it-must-continue"
          ELSE IF Len(run.steps) = 0 /\ Continue(st, cfg, 1) THEN "step1:build-returned-although-it-must-continue"
-         ELSE IF k <= cfg.repeats /\ Uncapped(cfg) /\ ~Complete(st, cfg) THEN "end:some-mixture-never-offered-to-a-rule"
+         ELSE IF k <= cfg.repeats /\ Uncapped(cfg, st) /\ ~Complete(st, cfg) THEN "end:some-mixture-never-offered-to-a-rule"
          ELSE "ok")
    ELSE LET s == run.steps[k]
             v == StepVerdict(cfg, st, k, s, k = Len(run.steps))
@@ -70,26 +80,48 @@ FinalOf(run) == IF \E k \in DOMAIN run.steps : run.steps[k].ran
                 THEN LET K == CHOOSE k \in DOMAIN run.steps : run.steps[k].ran /\ \A j \in DOMAIN run.steps : run.steps[j].ran => j <= k
                      IN run.steps[K].post
                 ELSE run.init
+FinalSeen(run) == IF Len(run.steps) = 0 THEN Range(run.init.seen) ELSE Range(run.steps[Len(run.steps)].seen)
 Net(j) == [pool |-> Range(j.pool), nodes |-> j.nodes, edges |-> Range(j.edges)]
 
 (* chemistry: what a rule proposed for a mixture, as observed *)
 Chem(run) == {<<res.r, res.mix, res.prods>> : res \in UNION {Range(run.steps[k].results) : k \in DOMAIN run.steps}}
 ChemAgree(a, b) == \A x \in Chem(a), y \in Chem(b) : (x[1] = y[1] /\ x[2] = y[2]) => x[3] = y[3]
 
-RECURSIVE RunsFrom(_, _)
-RunsFrom(c, a) ==
+(* the network as a user reads it: species, and reactions as (step, rule, reactants, products) - no node ids, no app indices *)
+AbsNet(j) ==
+   LET st == ToState(j)
+   IN [species |-> SpeciesKeys(st.nodes),
+       events  |-> {<<st.nodes[e].step, st.nodes[e].rule, Reactants(st, e), Products(st, e)>> : e \in EventsOf(st)}]
+
+(* ---- what property C14 states: the schedule (serial / k workers) changes nothing ---------------------------- *)
+RECURSIVE SchedulesFrom(_, _)
+SchedulesFrom(c, a) ==
+   IF a > Len(c.runs) THEN "ok"
+   ELSE IF ~ChemAgree(c.runs[1], c.runs[a]) THEN "run" \o ToString(a) \o "(" \o c.runs[a].mode \o "):rule-proposed-something-else-than-in-run1"
+   ELSE IF AbsNet(FinalOf(c.runs[a])) # AbsNet(FinalOf(c.runs[1])) THEN "run" \o ToString(a) \o "(" \o c.runs[a].mode \o "):network-differs-from-run1"
+   ELSE SchedulesFrom(c, a + 1)
+
+(* ---- conformance to Expansion.tla: stricter than C14 (task order, node ids, loop control, the model's network);  *)
+(* a failure here is reported as a deviation from the specification, not as a violation of C14                      *)
+RECURSIVE ConformsFrom(_, _)
+ConformsFrom(c, a) ==
    IF a > Len(c.runs) THEN "ok"
    ELSE LET v == RunVerdict(c.cfg, c.runs[a])
         IN IF v # "ok" THEN "run" \o ToString(a) \o "(" \o c.runs[a].mode \o "):" \o v
-           ELSE IF ~ChemAgree(c.runs[1], c.runs[a]) THEN "run" \o ToString(a) \o "(" \o c.runs[a].mode \o "):rule-proposed-something-else-than-in-run1"
-           ELSE IF Net(FinalOf(c.runs[a])) # Net(FinalOf(c.runs[1])) THEN "run" \o ToString(a) \o "(" \o c.runs[a].mode \o "):network-differs-from-run1"
-           ELSE RunsFrom(c, a + 1)
-
-Verdict(c) ==
-   LET v == RunsFrom(c, 1)
+           ELSE IF Net(FinalOf(c.runs[a])) # Net(FinalOf(c.runs[1])) THEN "run" \o ToString(a) \o "(" \o c.runs[a].mode \o "):node-ids-differ-from-run1"
+           ELSE ConformsFrom(c, a + 1)
+Conformance(c) ==
+   LET v == ConformsFrom(c, 1)
    IN IF v # "ok" THEN v
       ELSE IF "expect" \in DOMAIN c /\ Net(FinalOf(c.runs[1])) # Net(c.expect) THEN "network-differs-from-the-model's"
-      ELSE IF "expect" \in DOMAIN c /\ Cardinality(Range(FinalOf(c.runs[1]).seen)) # c.expect.nseen THEN "attempted-set-differs-from-the-model's"
+      ELSE IF "expect" \in DOMAIN c /\ Cardinality(FinalSeen(c.runs[1])) # c.expect.nseen THEN "attempted-set-differs-from-the-model's"
+      ELSE "ok"
+
+Verdict(c) ==
+   LET v == SchedulesFrom(c, 2)
+       d == Conformance(c)
+   IN IF v # "ok" THEN v
+      ELSE IF d # "ok" THEN "note:Expansion.tla:" \o d
       ELSE "ok"
 
 VARIABLE i
